@@ -203,6 +203,44 @@ def judge_pages(line, out):
     return bad
 
 
+def clsweep_lines(rng, tier):
+    """incompressible inputs whose COMPRESSED length sweeps k*65536 - 16 .. k*65536 + 16 for every multiple of 64 KiB
+    up to 1 MiB (input length stepped one byte at a time in the driver), decompressed into exactly len(x) bytes:
+    chunked / sliced I/O inside a wrapper has its boundaries at such compressed lengths"""
+    lines = []
+    for k in range(1, 17):
+        t = k * 65536
+        if tier == "thorough":
+            gl = list(range(1, 10)); zl = [1, 3, 9, 15, 19, 22] if k <= 8 else [1, 3, 9, 15]
+        else:
+            gl = [rng.randrange(1, 10)] + ([rng.randrange(1, 10)] if k % 4 == 0 else [])
+            zl = [rng.choice([1, 2, 3, 5, 7, 9, 12, 15, 17, 19, 22] if k <= 4 else [1, 2, 3, 5, 7, 9, 12])]
+        for lv in sorted(set(gl)):
+            lines.append(f"clsweep gzip {lv} {t} 16")
+        for lv in sorted(set(zl)):
+            lines.append(f"clsweep zstd {lv} {t} 16")
+        if k in (1, 2, 4, 8) or tier == "thorough":
+            lines.append(f"clsweep snappy 0 {t} 16")
+            lines.append(f"clsweep lz4 0 {t} 16")
+    return lines
+
+
+def judge_clsweep(line, out):
+    _, codec, lv, target, win = line.split()
+    if out.startswith("OK"):
+        d = dict(x.split("=", 1) for x in out.split()[1:])
+        if int(d.get("tested", "0")) < int(win):
+            return [f"clsweep {codec}: the sweep reached only {d.get('tested')} compressed lengths around {target} (driver problem)"]
+        return []
+    if out.startswith("FAIL"):
+        d = dict(x.split("=", 1) for x in out.split()[1:] if "=" in x)
+        if d.get("comp", "0") != "0":
+            return [f"carquet_{codec}_compress level {lv} fails (status {d.get('comp')}) at its bound on {d.get('n')} incompressible bytes"]
+        return [f"carquet_{codec} level {lv}: {d.get('n')} incompressible bytes compress to {d.get('clen')} bytes (near {target} = {int(target) // 65536} x 64 KiB) and "
+                f"decompressing that into exactly {d.get('n')} bytes gives status {d.get('dec')}, length {d.get('out')} (system library decodes it: {d.get('lib')})"]
+    return [f"carquet_{codec}: crash in the compressed-length sweep: {out[:200]}"]
+
+
 def judge_hist(line, out):
     """Property oracle for a history: every compress step with cap >= bound must succeed; every success must report
     at most cap bytes and be decoded to its input by carquet and by the system library; damaged data must not
@@ -277,6 +315,7 @@ def run(tier):
                        "(16-bit table position aliasing), 200 KB of zeros; destination capacities bound-1, bound, bound+1 and far below; "
                        "EVERY capacity 0..bound+1 for eleven small inputs (random 100 / 1000, period 40, literal runs 14/15/16/270, runs, empty, tiny) per codec; "
                        "gzip levels 1-9 and zstd levels 1-22 plus out-of-range levels x sizes 0 .. 300 KB (thorough 2 MiB) x the three capacities; "
+                       "incompressible inputs whose compressed length sweeps k*64 KiB +-16 for k = 1..16 (gzip / zstd at sampled levels, snappy, lz4), exact-size destination; "
                        "page histories through one carquet_page_writer for all four codecs (INT32 / BYTE_ARRAY PLAIN; same, smaller, previous+k, exactly bound(previous) and just below; random / text / zero bodies), each body decompressed into exactly uncompressed_size bytes by carquet and the system library; "
                        "call histories on one thread for all four codecs (short destination then bound-sized, levels and inputs interleaved, truncated-data decompress in between), every success verified by the system library; "
                        "non-trivial = non-empty input; distinct by case text")
@@ -298,17 +337,21 @@ def run(tier):
         labels[l] = "capacity-sweep"
     lines += sw
     hist = history_lines(rng, tier) + page_history_lines(rng, tier) + CL.big_lines(tier, codecs=("snappy", "lz4", "gzip", "zstd"))
+    csw = clsweep_lines(rng, tier)
+    rng.shuffle(csw)            # long-running lines: spread evenly over the shards
     ext = gen_ext_lines(rng, tier)
     allc = lines + ext
     impl, deaths = CL.run_all(vlib, drv, allc, timeout=2400, max_deaths=40)
     hout, hdeaths = CL.run_all(vlib, drv, hist, timeout=2400)
-    deaths = deaths + hdeaths
+    cout, cdeaths = CL.run_all(vlib, drv, csw, timeout=2400)
+    hist, hout = hist + csw, hout + cout
+    deaths = deaths + hdeaths + cdeaths
     nh_ok = 0
     for line, out in zip(hist, hout):
         if out == "FAULT died":
             continue
         rep.count(line[:4000])
-        for b in (CL.judge_big(line, out)[0] if line.startswith("big ") else (judge_pages if line.startswith("pages ") else judge_hist)(line, out)):
+        for b in (judge_clsweep(line, out) if line.startswith("clsweep ") else CL.judge_big(line, out)[0] if line.startswith("big ") else (judge_pages if line.startswith("pages ") else judge_hist)(line, out)):
             rep.violation(b, {"case": line if len(line) < 600000 else line[:600000], "impl": out[:300]})
         nh_ok += 1
     for case, rc, summ in deaths:
@@ -374,7 +417,7 @@ def replay(path):
         print(CL.san_summary(err))
     if rc != 0 or not out:
         return 1
-    bad = CL.judge_big(case, out[0])[0] if case.startswith("big ") else judge_hist(case, out[0]) if case.startswith("hist ") else judge_pages(case, out[0]) if case.startswith("pages ") else judge(case, out[0])[0]
+    bad = judge_clsweep(case, out[0]) if case.startswith("clsweep ") else CL.judge_big(case, out[0])[0] if case.startswith("big ") else judge_hist(case, out[0]) if case.startswith("hist ") else judge_pages(case, out[0]) if case.startswith("pages ") else judge(case, out[0])[0]
     for b in bad:
         print("FAILS:", b)
     return 1 if bad else 0
